@@ -86,7 +86,11 @@ class Sim:
             v = Violation(self.prop, clause, witness, detail)
             if self.violation is None:
                 self.violation = v
-                self.event("VIOLATION", clause, witness, detail)
+                # only clause + witness are part of the digest: the free-text detail may legitimately depend on
+                # things outside the run (e.g. where on the interpreter stack a RecursionError surfaces)
+                self.event("VIOLATION", clause, witness)
+                if self.keep_trace:
+                    self.trace.append("  detail: " + str(detail)[:1000])
             raise v
 
     def guard(self, clause, witness=""):
